@@ -94,6 +94,20 @@ def configCreate (lines : List Text) (requested : Option Text) : Option Result :
         some { setconf := none, candidates := (denote wanted).toList }
       else some { setconf := some (lines ++ [r]), candidates := (denote wanted).toList }
 
+/-- `TorConfig.socks_endpoint(reactor, port)` (synchronous: it can only pick, never configure).
+`none` = it raised (nothing configured / options in the request / no such port / a line that denotes nothing). -/
+def configSync (lines : List Text) (port : Option Text) : Option Endpoint :=
+  match lines with
+  | [] => none
+  | l0 :: _ =>
+    match port with
+    | none => (firstWord l0).bind denote
+    | some p =>
+      if ' ' ∈ p then none
+      else match lines.find? (fun l => firstWord l = some p) with
+        | some _ => denote p
+        | none => none
+
 /-- one connection attempt on a fallback port -/
 inductive Attempt
   | ok
